@@ -120,7 +120,7 @@ def spec_comutex(tier):
         mc.append(("CoMutex_Live.cfg", 4, 1800, "CoMutex: every request is eventually granted under weak fairness of the workers"))
     return ConcSpec(
         name="CoMutex", scenario="cm", grid=grid, inv_props={"NoRace": ("C14", "C04")}, primary="C14",
-        mc_cfgs=mc, paths_cfg=None,
+        mc_cfgs=mc, paths_cfg=None,   # (the model lets any idle worker take a job later; the harness pool wakes workers eagerly)
         dfs_max=600 if tier == "quick" else 6000, preempt=2 if tier == "quick" else 3,
         rand_execs=100 if tier == "quick" else 2000, rand_grid=rand,
         scen_keys=["opts", "workers", "p1", "p2", "p3", "p4"], trace_timeout=1500)
